@@ -259,3 +259,119 @@ def all_skeletons(thorough: bool) -> Iterator[tuple[str, list[list[Any]]]]:
     yield from gen_loops(thorough)
     yield from gen_if(thorough)
     yield from gen_switch(thorough)
+
+
+# --------------------------------------------------------------------------- flat programs (the premise of C13)
+
+
+def _flat_items(nm: Names, sw: list[int]) -> dict[str, Any]:
+    """Constructors of the statement kinds C13 speaks about; bodies hold plain statements only, cases end in break."""
+    def body(n: int) -> list[Any]:
+        return [nm.p() for _ in range(n)]
+
+    def switch(ncase: int, default: bool, group: bool, kase: int = 0) -> Any:
+        sw[0] += 1
+        items: list[Any] = []
+        v = 10 * sw[0]
+        for i in range(ncase):
+            vals = [v + 2 * i, v + 2 * i + 1] if (group and i == 0) else [v + 2 * i]
+            items.append(Case(vals, body(1 + (i % 2)) + [Ctl("break")]))
+        if default:
+            items.append(Default(body(1) + [Ctl("break")]))
+        return Switch(sw[0], items)
+
+    return {
+        "plain": lambda: nm.p(),
+        "with": lambda: With("actor", nm.p()),
+        "if": lambda: If(False, [nm.h()], body(1)),
+        "if2": lambda: If(False, [nm.h()], body(2)),
+        "ifnot": lambda: If(True, [nm.h()], body(1)),
+        "if-or": lambda: If(False, [nm.h(), nm.h()], body(1)),
+        "if-else": lambda: If(False, [nm.h()], body(1), [], body(2)),
+        "ifnot-else": lambda: If(True, [nm.h()], body(2), [], body(1)),
+        "if-elseif": lambda: If(False, [nm.h()], body(1), [(False, [nm.h()], body(1))]),
+        "if-elseif2": lambda: If(False, [nm.h()], body(1), [(False, [nm.h()], body(2))]),
+        "if2-elseif": lambda: If(False, [nm.h()], body(2), [(False, [nm.h()], body(1))]),
+        "if2-else1": lambda: If(False, [nm.h()], body(2), [], body(1)),
+        "if-elseif-else": lambda: If(False, [nm.h()], body(1), [(False, [nm.h()], body(2))], body(1)),
+        "if-elseifnot-else": lambda: If(False, [nm.h()], body(1), [(True, [nm.h()], body(1))], body(1)),
+        "if-or-elseif-or-else": lambda: If(False, [nm.h(), nm.h()], body(1), [(False, [nm.h(), nm.h()], body(1))], body(1)),
+        "if-elseif-elseif-else": lambda: If(False, [nm.h()], body(1), [(False, [nm.h()], body(1)), (False, [nm.h()], body(1))], body(1)),
+        "switch1": lambda: switch(1, False, False),
+        "switch1-default": lambda: switch(1, True, False),
+        "switch2": lambda: switch(2, False, False),
+        "switch2-default": lambda: switch(2, True, False),
+        "switch3-default": lambda: switch(3, True, False),
+        "switch-grouped": lambda: switch(2, False, True),
+        "switch-grouped-default": lambda: switch(2, True, True),
+    }
+
+
+FLAT_KINDS = ["plain", "with", "if", "if2", "ifnot", "if-or", "if-else", "ifnot-else", "if-elseif", "if-elseif-else", "if-elseifnot-else", "if-or-elseif-or-else",
+              "if-elseif-elseif-else", "switch1", "switch1-default", "switch2", "switch2-default", "switch3-default", "switch-grouped", "switch-grouped-default"]
+
+
+def gen_flat(thorough: bool) -> Iterator[tuple[str, list[list[Any]]]]:
+    """Routines that are sequences of plain statements, if/elseif/else chains and switches with break-terminated cases, ending in one terminator.
+    quick: every single kind and every ordered pair (framed by plain ops or not); thorough: triples as well."""
+    terms = ["end", "return", "hold"]
+    t = 0
+    for n in (1, 2, 3) if thorough else (1, 2):
+        for combo in itertools.product(FLAT_KINDS, repeat=n):
+            if n == 3 and sum(1 for c in combo if c.startswith(("plain", "with"))) > 1:
+                continue
+            if n >= 2 and all(c in ("plain", "with") for c in combo):
+                continue
+            for lead, trail in ((False, False), (True, True)) if n < 3 else ((True, False),):
+                nm = Names()
+                sw = [0]
+                mk = _flat_items(nm, sw)
+                body: list[Any] = []
+                if lead:
+                    body.append(nm.p())
+                for c in combo:
+                    body.append(mk[c]())
+                if trail:
+                    body.append(nm.p())
+                t += 1
+                body.append(Ctl(terms[t % 3]))
+                yield "flat:" + "+".join(combo), [body]
+
+
+def gen_nested(thorough: bool) -> Iterator[tuple[str, list[list[Any]]]]:
+    """A chain or switch nested in the arm of an if (plain, `||`, negated, with else), followed by another construct: the shapes in which the
+    structuring passes rewrite one construct while handles of the next one are alive."""
+    inners = ["if", "if-else", "if-elseif", "if-elseif2", "if2-elseif", "if-elseif-else", "ifnot-else", "switch1-default", "switch2", "if-or"]
+    followers = ["none", "plain", "if", "if-else", "if2-else1", "ifnot-else", "if-elseif-else", "switch1-default", "switch2-default"]
+    outers = ["if", "if-or", "ifnot", "if-else-then", "if-else-else", "elseif-arm"]
+    if not thorough:
+        followers = ["none", "if-else", "if2-else1", "ifnot-else", "switch1-default"]
+    t = 0
+    for outer in outers:
+        for inner in inners:
+            for fol in followers:
+                for extra in (0, 1):
+                    nm = Names()
+                    sw = [0]
+                    mk = _flat_items(nm, sw)
+                    arm = [mk[inner]()] + ([nm.p()] if extra else [])
+                    if outer == "if":
+                        first: Any = If(False, [nm.h()], arm)
+                    elif outer == "if-or":
+                        first = If(False, [nm.h(), nm.h()], arm)
+                    elif outer == "ifnot":
+                        first = If(True, [nm.h()], arm)
+                    elif outer == "if-else-then":
+                        first = If(False, [nm.h()], arm, [], [nm.p()])
+                    elif outer == "if-else-else":
+                        first = If(False, [nm.h()], [nm.p()], [], arm)
+                    else:
+                        first = If(False, [nm.h()], [nm.p()], [(False, [nm.h()], arm)], [nm.p()])
+                    body: list[Any] = [first]
+                    if fol == "plain":
+                        body.append(nm.p())
+                    elif fol != "none":
+                        body.append(mk[fol]())
+                    t += 1
+                    body.append(Ctl(("end", "return", "hold")[t % 3]))
+                    yield f"nested:{outer}", [body]
